@@ -501,7 +501,9 @@ def _fix_multiline_opening_tag_with_closing(text: str) -> str:
             result_lines.append(line)
             continue
 
-        stripped = line.lstrip()
+        # Inside a block quote the line carries the quote prefix (`> `) before the tag.
+        stripped = line.lstrip(" \t>")
+        quote_prefix = line[: len(line) - len(stripped)] if ">" in line[: len(line) - len(stripped)] else ""
 
         # Only process lines that are continuations (don't start with a tag opener).
         # If a line starts with a tag opener, the tag began on that line, not a continuation.
@@ -522,7 +524,7 @@ def _fix_multiline_opening_tag_with_closing(text: str) -> str:
                         before = line[:split_pos].rstrip()
                         closing = line[split_pos:].lstrip()
                         result_lines.append(before)
-                        result_lines.append(closing)
+                        result_lines.append(quote_prefix + closing)
                         break
                 continue
 
